@@ -119,8 +119,12 @@ func runC12(rc *RunCtx) {
 	parent := 0 // 0 alive, 1 cancelled before, 2 cancelled during
 	var parentAt time.Duration
 	if runner != c12RunnerStop {
-		parent = ch.Pick("parent", 6, 1, 2)
-		if parent == 2 {
+		if runner == c12RunnerStore {
+			parent = ch.Pick("parent", 6, 1, 2, 3) // 3: the cancel store is cancelled by somebody else while the action runs
+		} else {
+			parent = ch.Pick("parent", 6, 1, 2)
+		}
+		if parent >= 2 {
 			parentAt = time.Duration(1+ch.Intn("parentat", 2000)) * timeout / 1000 // up to 2x timeout
 			if parentAt == timeout {
 				parentAt++
@@ -136,7 +140,7 @@ func runC12(rc *RunCtx) {
 	bounds := make([]time.Duration, units)
 	for i := 0; i < units; i++ {
 		bounds[i] = total * time.Duration(i+1) / time.Duration(units)
-		for bounds[i] == timeout || (parent == 2 && bounds[i] == parentAt) {
+		for bounds[i] == timeout || (parent >= 2 && bounds[i] == parentAt) {
 			bounds[i]++
 		}
 	}
@@ -271,6 +275,10 @@ func runC12(rc *RunCtx) {
 				runErr = parallelisation.RunActionWithTimeoutAndContext(pctx, timeout, action)
 			} else {
 				store := parallelisation.NewCancelFunctionsStore()
+				if parent == 3 {
+					t := time.AfterFunc(parentAt, store.Cancel)
+					defer t.Stop()
+				}
 				runErr = parallelisation.RunActionWithTimeoutAndCancelStore(pctx, timeout, store, action)
 				defer store.Cancel()
 			}
@@ -303,8 +311,8 @@ func runC12(rc *RunCtx) {
 	}
 	first := timeout // instant of the first event that ends the wait for the action's own result
 	firstKind := "timeout"
-	if parent == 2 && parentAt < timeout {
-		first, firstKind = parentAt, "cancelled"
+	if parent >= 2 && parentAt < timeout {
+		first, firstKind = parentAt, "cancelled" // parent context or cancel store cancelled first
 	}
 	switch {
 	case parent == 1:
@@ -445,6 +453,11 @@ func runC12Parallelise(rc *RunCtx) {
 	ch := rc.Ch
 	res := rc.Res
 	n := ch.Intn("n", 8)
+	if ch.Pick("many", 6, 1) == 1 {
+		// many arguments: the result channel must have room for every worker even when the caller stops
+		// receiving after the first error
+		n = []int{64, 127, 128, 129, 130, 131, 200, 300, 1000}[ch.Intn("nmany", 9)]
+	}
 	keep := ch.Intn("keep", 2) == 1
 	type argT struct {
 		id    int
@@ -459,7 +472,11 @@ func runC12Parallelise(rc *RunCtx) {
 			nfail++
 		}
 	}
-	res.Config = fmt.Sprintf("runner=Parallelise n=%d keep=%v args=%v", n, keep, args)
+	shown := args
+	if len(shown) > 12 {
+		shown = shown[:12]
+	}
+	res.Config = fmt.Sprintf("runner=Parallelise n=%d keep=%v failing=%d args(first 12)=%v", n, keep, nfail, shown)
 	var mu sync.Mutex
 	invoked := map[int]int{}
 	errs := map[error]int{}
